@@ -265,8 +265,20 @@ void XPathMatcher::startElement(const XMLElementDecl& elemDecl,
                             if(dv && dv->getType()==DatatypeValidator::QName)
                             {
                                 int index=XMLString::indexOf(value, chColon);
-                                if(index==-1)
+                                // an unprefixed QName value takes the default namespace in scope
+                                const XMLCh* defaultURI = (index==-1 && validationContext && *value)
+                                    ? validationContext->getURIForPrefix((XMLCh*)XMLUni::fgZeroLenString) : 0;
+                                if(index==-1 && (!defaultURI || !*defaultURI))
                                     matched(value, dv, false);
+                                else if(index==-1)
+                                {
+                                    XMLBuffer buff(1023, fMemoryManager);
+                                    buff.append(chOpenCurly);
+                                    buff.append(defaultURI);
+                                    buff.append(chCloseCurly);
+                                    buff.append(value);
+                                    matched(buff.getRawBuffer(), dv, false);
+                                }
                                 else
                                 {
                                     XMLBuffer buff(1023, fMemoryManager);
@@ -337,8 +349,20 @@ void XPathMatcher::endElement(const XMLElementDecl& elemDecl,
             if(dv && dv->getType()==DatatypeValidator::QName)
             {
                 int index=XMLString::indexOf(elemContent, chColon);
-                if(index==-1)
+                // an unprefixed QName value takes the default namespace in scope
+                const XMLCh* defaultURI = (index==-1 && validationContext && *elemContent)
+                    ? validationContext->getURIForPrefix((XMLCh*)XMLUni::fgZeroLenString) : 0;
+                if(index==-1 && (!defaultURI || !*defaultURI))
                     matched(elemContent, dv, isNillable);
+                else if(index==-1)
+                {
+                    XMLBuffer buff(1023, fMemoryManager);
+                    buff.append(chOpenCurly);
+                    buff.append(defaultURI);
+                    buff.append(chCloseCurly);
+                    buff.append(elemContent);
+                    matched(buff.getRawBuffer(), dv, isNillable);
+                }
                 else
                 {
                     XMLBuffer buff(1023, fMemoryManager);
